@@ -53,7 +53,7 @@ PROPS = {
         "cancellation-point enumeration over rapid-generated scenarios in synctest bubbles; oracle = prefix-of-reference + ctx-error predicate",
         [job("main", "^TestC05$", q=4, th=16)]),
     "C06": P("Batch results positional; post once", "exploration",
-        "cases = gated batch scenarios (n items, c workers, prep payload form, per-item scripts, release schedule). EXHAUSTIVE over all completion orders (replay-based DFS over 'which parked exec next') for the (n,c) pairs listed in exhaustive_subspaces; rapid: n in 0..96 (fixed cases up to 129), c in 0..16, 9 prep payload forms, continue and stop mode, gated random release orders, un-gated random virtual durations, runs struck by a cancellation, and second runs of the same node object with another item list; "
+        "cases = gated batch scenarios (n items, c workers, prep payload form, per-item scripts, release schedule). EXHAUSTIVE over all completion orders (replay-based DFS over 'which parked exec next') for the (n,c) pairs listed in exhaustive_subspaces; rapid: n in 0..96 (fixed cases up to 129), c in 0..16, 9 prep payload forms, continue and stop mode, gated random release orders, un-gated random virtual durations, runs struck by a cancellation, second runs of the same node object with another item list, and batches whose items are nil or equal to each other; "
         "non-trivial = c>=2 and completion order differs from index order",
         "oracle: post exactly once, entered with no exec in flight and all n started (strict without stop mode / cancellation; otherwise an item still executing must carry an error in the slot post saw - slots are snapshotted at post time); items element-wise identical to prep's; len(results)==n; slot i == the outcome (value identity / error instance) of item i's own last callback",
         "schedule enumeration: every completion order for n<=8,c<=4 (quick) and n=10,c=5 (thorough)",
@@ -102,7 +102,7 @@ PROPS = {
         [job("main", "^TestC11$", q=4, th=16)]),
 
     "C12": P("Worker pool", "exploration",
-        "cases = WorkerPool scenarios in a bubble: every size -1..16 x {0,1,5w+3 tasks, three submitters} x gated/timed x two Wait rounds; rapid: sizes -1..16, 0..500 tasks, 1..4 submitters, 1..3 Submit/Wait rounds, gated release orders or random virtual durations, a late submitter adding tasks while Wait is in progress; the same under the race detector with tasks doing plain writes read after Wait; "
+        "cases = WorkerPool scenarios in a bubble: every size -1..16 x {0,1,5w+3 tasks, three submitters} x gated/timed x two Wait rounds; rapid: sizes -1..16, 0..500 tasks, 1..4 submitters, 1..3 Submit/Wait rounds, gated release orders or random virtual durations, a late submitter adding tasks while Wait is in progress, a second goroutine in Wait at the same time, occasional long tasks; the same under the race detector with tasks doing plain writes read after Wait; "
         "non-trivial = tasks>3*workers (queue overflows) or >=2 submitters or >=2 rounds",
         "oracle: every task counter == 1; at every quiescent point a goroutine blocked in Wait() has not returned while a submitted task is unfinished; plain writes visible after Wait (race detector: happens-before); after Close the bubble ends clean (a surviving worker = 'blocked goroutines remain' panic); lost task = deadlock panic",
         "schedule exploration in deterministic bubbles + race-detector run",
